@@ -1,21 +1,9 @@
-"""Rewrite coq/theories/Proofs/FingerprintPins.v from the CURRENT /repo (run only after the hand model was
-re-synchronised with a deliberate change of /repo): PYTHONPATH=/repo:/verif /venv/bin/python tools_pin_fingerprints.py"""
+"""Rewrite harness/pins/core_fingerprints.json from the CURRENT /repo (run only after the hand model
+Model/Gateway.v / Codec.v was re-synchronised with a deliberate change of /repo and the lock-step correspondence passes):
+PYTHONPATH=/repo:/verif /venv/bin/python tools_pin_fingerprints.py"""
+import json
 from harness.translate import fingerprints
 
-rows = fingerprints.table()
-body = ";\n  ".join(f'(s2p "{k}", s2p "{v}")' for k, v in rows)
-open("/verif/coq/theories/Proofs/FingerprintPins.v", "w").write(f'''(* AST fingerprints of the hand-modelled functions of /repo that Model/Gateway.v (and Codec.v) were
-   written against.  Written by tools_pin_fingerprints.py; compared with the regenerated
-   Gen/Fingerprints.v on every run. *)
-From Coq Require Import List NArith String.
-From PMS Require Import Base.PyStr Gen.Fingerprints.
-Import ListNotations.
-Open Scope string_scope.
-
-Definition pinned_fp : list (pstr * pstr) := [
-  {body}].
-
-Theorem modelled_code_unchanged : code_fp = pinned_fp.
-Proof. vm_compute. reflexivity. Qed.
-''')
+rows = dict(fingerprints.table())
+json.dump(rows, open("/verif/harness/pins/core_fingerprints.json", "w"), indent=1, sort_keys=True)
 print(len(rows), "fingerprints pinned")
